@@ -11,6 +11,8 @@ import (
 	"encoding/json"
 	"errors"
 	"fmt"
+	"io"
+	"io/fs"
 	"os"
 	"strings"
 
@@ -106,6 +108,21 @@ func runC05(c *mon.Ctx) {
 		c05Run(c, cs, base)
 	}
 
+	// A go.mod / LICENSE that grows past the per-file limit after the file check has looked at it: the first
+	// Lstat reports a small size, later ones (and the content) the size over the limit. Creation may fail;
+	// if it succeeds the archive is judged like any other (it must pass the zip check).
+	for k := 0; k < 2; k++ {
+		id := fmt.Sprintf("grow%d", k)
+		if !c.Mine(7+k) || !c.Want(id) {
+			continue
+		}
+		name := []string{"go.mod", "LICENSE"}[k]
+		big := int64(refzip.MaxGoMod) + 1
+		cs := &c05Case{id: id, family: "lying-grows-after-check", theme: "over-limit-on-second-look", mod: gen.ZModule{Path: "example.com/m", Version: "v1.0.0", Intent: "plain"},
+			files: []*gen.ZFile{{P: name, M: 0o644, Sz: 100, LaterSz: big, Zeros: big}, {P: "a.go", M: 0o644, Sz: 3, Data: []byte("abc")}}}
+		c05Run(c, cs, base)
+	}
+
 	// Thorough tier, one batch: the total size exactly at MaxZipFile and one byte above (streamed zeros;
 	// the archive itself is small, the extraction is skipped for the large one).
 	if !c.Quick() {
@@ -150,6 +167,9 @@ func c05Run(c *mon.Ctx, cs *c05Case, base string) {
 	var buf bytes.Buffer
 	if c.Guard(cs.id, wit, func() {
 		cf, cfErr = mzip.CheckFiles(zipcFiles(cs.files))
+		for _, f := range cs.files {
+			f.Lstats = 0 // each of the two calls starts with the file as it was first seen
+		}
 		crErr = mzip.Create(&buf, mv, zipcFiles(cs.files))
 	}) {
 		return
@@ -204,7 +224,52 @@ func c05Run(c *mon.Ctx, cs *c05Case, base string) {
 	c05Pipeline(c, cs, mv, cf, buf.Bytes(), base)
 	if cs.family == "honest" && buf.Len() > 0 && buf.Len() < 1<<20 {
 		c05FailingWriter(c, cs, mv, buf.Len())
+		c05FailingReader(c, cs, mv, cf)
 	}
+}
+
+var c05ReadErrs = []error{errors.New("injected read fault"), io.ErrUnexpectedEOF, io.ErrClosedPipe, io.ErrNoProgress, fs.ErrClosed, io.ErrShortBuffer}
+
+// c05FailingReader: the same creation again, with the reader of one file that belongs in the archive
+// breaking off with an error part-way. Such a file has no content to put in the archive "byte for
+// byte"; a creation that reports success has silently shipped a cut-off file.
+func c05FailingReader(c *mon.Ctx, cs *c05Case, mv module.Version, cf mzip.CheckedFiles) {
+	valid := map[string]bool{}
+	for _, p := range cf.Valid {
+		valid[p] = true
+	}
+	h := 0
+	for _, ch := range cs.id {
+		h = (h*31 + int(ch)) & 0xffffff
+	}
+	var victim *gen.ZFile
+	for i := range cs.files {
+		f := cs.files[(i+h)%len(cs.files)]
+		if valid[f.P] && f.Zeros == 0 && len(f.Data) > 0 {
+			victim = f
+			break
+		}
+	}
+	if victim == nil {
+		return
+	}
+	victim.ReadErr = c05ReadErrs[h%len(c05ReadErrs)]
+	victim.ReadErrAt = []int{0, 1, len(victim.Data) / 2, len(victim.Data) - 1, len(victim.Data)}[(h/7)%5]
+	defer func() { victim.ReadErr, victim.ReadErrAt = nil, 0 }()
+	var buf bytes.Buffer
+	var err error
+	wit := func() any {
+		return map[string]any{"case": c05Witness(cs), "file": mon.QS(victim.P), "reader-fails-after": victim.ReadErrAt, "with": victim.ReadErr.Error()}
+	}
+	if c.Guard(cs.id, wit, func() { err = mzip.Create(&buf, mv, zipcFiles(cs.files)) }) {
+		return
+	}
+	c.Eval(1)
+	if err == nil {
+		c.Violation("create-reports-success-though-reading-a-file-failed", cs.id, wit())
+		return
+	}
+	c.Class("failing-reader:create-fails:" + victim.ReadErr.Error())
 }
 
 // c05CutWriter accepts limit bytes and then fails every write.
